@@ -128,20 +128,24 @@ impl ChannelManager {
     // Gather all channels the user is a member of and sort them.
     let mut channel_list: Vec<StringAtom> = Default::default();
 
-    if let Some(in_channels_set) = in_channels.get(&nid.username) {
-      for channel_id in in_channels_set.iter() {
-        if as_owner {
-          match channels.get(&channel_id.handler) {
-            Some(channel) => {
-              if channel.0.read().await.is_owner(&nid) {
-                channel_list.push(channel_id.into());
-              }
-            },
-            None => continue,
-          }
-        } else {
+    // Snapshot the user's channels first: no map guard may be held across an await point, or a
+    // task parked on a channel lock would block every other task that needs the same map shard.
+    let joined_channels: Vec<ChannelId> = match in_channels.get(&nid.username) {
+      Some(in_channels_set) => in_channels_set.iter().cloned().collect(),
+      None => Vec::new(),
+    };
+
+    for channel_id in joined_channels.iter() {
+      if as_owner {
+        let channel = match channels.get(&channel_id.handler) {
+          Some(kv) => kv.value().clone(),
+          None => continue,
+        };
+        if channel.0.read().await.is_owner(&nid) {
           channel_list.push(channel_id.into());
         }
+      } else {
+        channel_list.push(channel_id.into());
       }
     }
 
